@@ -19,6 +19,7 @@ TLit    == IsEvent("lit") /\ Lit(Ev.v, Ev.elems) /\ Obs
 TNil    == IsEvent("nil") /\ SetNil(Ev.v) /\ Obs
 TAssign == IsEvent("assign") /\ Assign(Ev.v, Ev.src) /\ Obs
 TSub    == IsEvent("sub") /\ ~Ev.panic /\ Sub(Ev.v, Ev.src, Ev.i, Ev.j) /\ Obs
+\* a failing slice operation is admissible unless success is certain
 TSubP   == IsEvent("sub") /\ Ev.panic /\ ~SubOK(Ev.src, Ev.i, Ev.j) /\ UNCHANGED gsVars
 TWrite  == IsEvent("write") /\ ~Ev.panic /\ Write(Ev.v, Ev.i, Ev.x) /\ Obs
 TWriteP == IsEvent("write") /\ Ev.panic /\ ~WriteOK(Ev.v, Ev.i) /\ UNCHANGED gsVars
